@@ -23,7 +23,7 @@ META = dict(
         "Color 3 hsl algorithm applied to the emitted (H,S%,L%) gives the same colour.  An IEEE-754 twin (z3 Float64, 8-bit "
         "bit-vector inputs) re-executes rgb_to_hsl bit-exactly and proves the emitted percentages pass the library's own "
         "range validation.  rgb() strings, tuples and the format dispatch table are decided the same way."),
-    functions=["conversions.rgb_to_hsl", "conversions.hsl_to_rgb", "conversions._parse_hue", "conversions._parse_hsl_percentage_or_decimal",
+    functions=["colors.ColorPair.make_readable (format mapping, API harness of C01)", "conversions.rgb_to_hsl", "conversions.hsl_to_rgb", "conversions._parse_hue", "conversions._parse_hsl_percentage_or_decimal",
                "conversions.rgbint_to_string", "color_parser.parse_color_to_rgb", "color_parser.format_color",
                "color_parser.detect_color_format"],
     bounds=["all 2^24 colours (three symbolic 8-bit channels)", "real model (guard 1e-9) for the value identity; IEEE-754 binary64 (exact) for range acceptance",
@@ -41,6 +41,12 @@ def jobs(tier):
         js.append(dict(kind="hsl-real", order=i))
     for i in range(6):
         js.append(dict(kind="hsl-fp", order=i))
+    # C06.1: format mapping of make_readable per input spelling x outcome (API harness shared with C01)
+    from . import c01
+    for j in c01.jobs(tier):
+        if tier == "quick" and (j["mode"] == 2 or (j["large"] != j["very"])):
+            continue
+        js.append(dict(j, which=["C06"]))
     return js
 
 
@@ -49,6 +55,9 @@ ORDERS = [(0, 1, 2), (0, 2, 1), (1, 0, 2), (1, 2, 0), (2, 0, 1), (2, 1, 0)]
 
 def run_job(job):
     kind = job["kind"]
+    if kind == "api":
+        from . import c01
+        return c01.run_api_job(job, {"C06"}, ID)
     out = runner.JobOut(job)
     if kind == "hsl-fp":
         conv = repo.load("cm_colors.core.conversions")
@@ -238,7 +247,18 @@ def replay_dispatch(inp):
     return bool(bad), "mismatches: %r" % (bad,)
 
 
-REPLAYS = {"hsl": replay_hsl, "rgbstr": replay_rgbstr, "dispatch": replay_dispatch}
+def replay_api(inp):
+    from . import c01
+    return c01.replay_api(inp, props=("C06",))
+
+
+def _ladder_api(job):
+    from . import c01
+    return c01.ladder_api(job)
+
+
+REPLAYS = {"hsl": replay_hsl, "rgbstr": replay_rgbstr, "dispatch": replay_dispatch, "api": replay_api}
+LADDER = {"api": _ladder_api}
 
 
 def main(tier, seed):
